@@ -27,6 +27,11 @@ def extra_configs(work):
         "unmentioned-other-frame": [cls("Vendor", "VfZeta", [("zeta", "Int")]), cls("Vendor::Deep", "VfOmega", [("foo", "String")])],
         "same-short-name-other-frame": [cls("Vendor", "Alpha", [("foo", "Float"), ("bar", "Float")]), cls("Vendor", "Beta", [("baz", "Float")]),
                                          cls("Vendor", "Mixer", [("mix", "String")])],
+        # the same short names in the Builtin frame itself: only for programs whose own classes all live in namespaces
+        # (a top-level class Alpha would BE the configured Alpha)
+        "same-short-name-builtin-frame": [cls("Builtin", "Alpha", [("foo", "Float"), ("bar", "Float"), ("baz", "Float"), ("mix", "Float")]),
+                                           cls("Builtin", "Beta", [("foo", "Float"), ("bar", "Float"), ("baz", "Float"), ("mix", "Float")]),
+                                           cls("Builtin", "Gamma", [("foo", "Float"), ("bar", "Float"), ("baz", "Float"), ("mix", "Float")])],
     }
     out = {}
     for name, files in sets.items():
@@ -53,10 +58,15 @@ def run(tier, work):
     # the same graphs with every class / module placed in its own namespace (TLC: MCPlacements), edges crossing namespaces
     from . import c16
     sub = graphs[:len(graphs) // 2]
-    for gr, pl in zip(sub, c16.choose_places(work, stats, sub, rng)):
+    chosen = c16.choose_places(work, stats, sub, rng)
+    allns = [p_ for p_ in K.placements(work, stats) if all(p_.values())]
+    for i in range(0, len(chosen), 2):           # every other program: no entity at the top level
+        cross = [p_ for p_ in allns if K.crosses(sub[i], p_)]
+        chosen[i] = rng.choice(cross or allns)
+    for gr, pl in zip(sub, chosen):
         dl, _ = K.render(gr, K.PLAIN, place=pl)
         ql, _ = K.query_lines(gr, K.PLAIN, place=pl)
-        progs.append(("classes-placed", "\n".join(dl + ql) + "\n"))
+        progs.append(("classes-placed" + ("-all-namespaced" if all(pl.get(x, "") for x in gr["shape"]) else ""), "\n".join(dl + ql) + "\n"))
     cfgs = extra_configs(work)
     jobs, meta = [], []
     for tag, text in progs:
@@ -66,6 +76,8 @@ def run(tier, work):
         jobs.append({"files": {"t.rb": text}, "args": ["t.rb", "-i"]})
         meta.append(None)
         for cname, cdir in cfgs.items():
+            if cname == "same-short-name-builtin-frame" and not tag.endswith("-all-namespaced"):
+                continue
             jobs.append({"cfg": cdir, "files": {"t.rb": text}, "args": ["t.rb", "-i"]})
             meta.append((base_i, tag, cname))
     wr = C.Runner(work, "worker")
@@ -85,7 +97,7 @@ def run(tier, work):
         compared += 1
         if (res.get("out") or "") == b.get("out") and not (res.hung or res.crashed):
             continue
-        mentions = cname == "same-short-name-other-frame" and tag.startswith("classes")
+        mentions = cname in ("same-short-name-other-frame", "same-short-name-builtin-frame") and tag.startswith("classes")
         key = ("Dev_FlatBuiltinClassList" if mentions else "%s:%s" % (cname, tag))
         if v.seen(key):
             v.again(key)
